@@ -505,7 +505,8 @@ impl Value {
                 Value::Int64Value(m) => bi.cmp(&BigInt::from(*m)),
                 Value::UInt32Value(m) => bi.cmp(&BigInt::from(*m)),
                 Value::UInt64Value(m) => bi.cmp(&BigInt::from(*m)),
-                Value::Float64Value(y) => bi.cmp(&BigInt::from(*y as i64)),
+                // The Float64 row defines the order between floats and big integers.
+                Value::Float64Value(_) => other.compare(self).reverse(),
                 Value::BigInt(other_bi) => bi.cmp(other_bi),
                 Value::BigUint(other_bi) => match other_bi.to_bigint() {
                     Some(other_bi) => bi.cmp(&other_bi),
@@ -525,10 +526,8 @@ impl Value {
                 },
                 Value::UInt32Value(u) => bi.cmp(&BigUint::from(*u)),
                 Value::UInt64Value(u) => bi.cmp(&BigUint::from(*u)),
-                Value::Float64Value(m) => match u64::try_from(*m as i64) {
-                    Ok(m) => bi.cmp(&BigUint::from(m)),
-                    Err(_) => Ordering::Greater,
-                },
+                // The Float64 row defines the order between floats and big integers.
+                Value::Float64Value(_) => other.compare(self).reverse(),
                 Value::BigInt(other_bi) => match other_bi.to_biguint() {
                     Some(other_bi) => bi.cmp(&other_bi),
                     None => Ordering::Greater,
